@@ -323,6 +323,8 @@ contract(A + "preserve_context.restore_eliot_context", props=["C06"], types={"ar
          free={"f": "role:UserCode", "called": "Lock", "task_id": "bytes", "U": "str", "L": "seq"},
          ghost_args={"Action.continue_task#0": {"U": "U", "L": "L"}},
          call_tokens={"UserCode.__call__#0": "held(called)"},
+         ghosts={"RAN": "bool"}, ghost_defaults={"RAN": "False"},
+         after={"UserCode.__call__#0": [("RAN", "True")]}, after_raise={"UserCode.__call__#0": [("RAN", "True")]},
          assumes=[("string library axioms, instance for U, L", "codec_facts(U, L)")],
          requires=[("current-ok", "cur_ok()"),
                    ("the-id-came-from-serialize_task_id", "all_nat(L) and not str_contains(U, '@') and ascii_ok(U) and task_id == bytes_of(U + '@' + levelstr(L))"),
@@ -333,7 +335,8 @@ contract(A + "preserve_context.restore_eliot_context", props=["C06"], types={"ar
                   ("context-restored", "CTX[me] == old(CTX[me])", ["C04", "C05"])],
          raises=[{"cls": "TooManyCalls", "when": "old(is_locked(called))", "iff": True,
                   "ensures": [("every-other-call-raises-TooManyCalls-without-running-the-function", "NTOP[f] == old(NTOP[f]) and LOG == old(LOG)", ["C06"])]},
-                 {"cls": "BaseException", "ensures": [("the-function's-own-exception-passes-through", "not old(is_locked(called)) and CTX[me] == old(CTX[me])", ["C06"])]}])
+                 {"cls": "BaseException", "ensures": [("the-function's-own-exception-passes-through", "not old(is_locked(called)) and CTX[me] == old(CTX[me])", ["C06"]),
+                              ("nothing-else-raises: the function was called", "RAN", ["C06"])]}])
 specfun("is_locked", ["l"], "typed(l.locked_flag, 'bool')")
 specfun("last_user_call_returned", ["f", "r"], "True")
 
